@@ -189,6 +189,31 @@ func (r *Run) Violation(class string, c *Case, expected, observed string) {
 	fmt.Printf("  class: %s\n  expected: %s\n  observed: %s\n", class, clip(expected, 600), clip(observed, 600))
 }
 
+// Guard runs f; a panic of the code under test is recorded as a violation of the running property (whatever the
+// property demands, the call produced neither a result nor an error) instead of killing the harness.
+func (r *Run) Guard(c *Case, f func()) {
+	defer func() {
+		if rec := recover(); rec != nil {
+			msg := fmt.Sprint(rec)
+			cls := "other"
+			switch {
+			case strings.Contains(msg, "nil pointer"):
+				cls = "nil-dereference"
+			case strings.Contains(msg, "index out of range"):
+				cls = "index-out-of-range"
+			case strings.Contains(msg, "nil map"):
+				cls = "nil-map"
+			case strings.Contains(msg, "slice bounds"):
+				cls = "slice-bounds"
+			}
+			buf := make([]byte, 4096)
+			buf = buf[:runtime.Stack(buf, false)]
+			r.Violation("panic-instead-of-a-result:"+cls, c, "a result or an error", "panic: "+msg+"\n"+string(buf))
+		}
+	}()
+	f()
+}
+
 func (r *Run) NumViolations() int {
 	r.mu.Lock()
 	defer r.mu.Unlock()
